@@ -139,12 +139,36 @@ def cross_call_state(ctx, rule: str, consequence: str):
         res = analyse(f.node, roots_params=False, root_expr=_self_root)
         for node, lab, what in res.writes:
             writes.setdefault(lab[5:], []).append(f"{m} L{node.lineno}: {what}")
+        # loads that do not count as "reading the carried value": the right-hand side of the attribute's own update
+        # (self.n = self.n + 1) and arguments of logging / warning calls
+        ignore = set()
+        for st in own_nodes(f.node):
+            if isinstance(st, (ast.Assign, ast.AnnAssign, ast.AugAssign)):
+                tg = st.targets if isinstance(st, ast.Assign) else [st.target]
+                own = {t.attr for t in tg if isinstance(t, ast.Attribute) and _self_root(t)}
+                if own and st.value is not None:
+                    for y in ast.walk(st.value):
+                        if isinstance(y, ast.Attribute) and _self_root(y) and y.attr in own:
+                            ignore.add(id(y))
+                        if isinstance(y, ast.Call) and getattr(y.func, "id", "") == "getattr" and len(y.args) >= 2 \
+                                and isinstance(y.args[1], ast.Constant) and y.args[1].value in own:
+                            ignore.add(id(y))
+            if isinstance(st, ast.Call) and isinstance(st.func, ast.Attribute) and (
+                    norm(st.func.value) in ("logger", "logging", "warnings") or st.func.attr in ("warn", "debug", "info", "warning")):
+                for y in ast.walk(st):
+                    ignore.add(id(y))
         for x in own_nodes(f.node):
+            if id(x) in ignore:
+                continue
             if isinstance(x, ast.Attribute) and isinstance(x.value, ast.Name) and x.value.id == "self":
                 if isinstance(x.ctx, ast.Store):
                     writes.setdefault(x.attr, []).append(f"{m} L{x.lineno}: self.{x.attr} = ...")
                 elif isinstance(x.ctx, ast.Load):
                     reads.setdefault(x.attr, []).append(f"{m} L{x.lineno}")
+            # reads / writes spelled with getattr / setattr
+            if isinstance(x, ast.Call) and getattr(x.func, "id", "") in ("getattr", "setattr") and len(x.args) >= 2 \
+                    and isinstance(x.args[0], ast.Name) and x.args[0].id == "self" and isinstance(x.args[1], ast.Constant):
+                (reads if x.func.id == "getattr" else writes).setdefault(str(x.args[1].value), []).append(f"{m} L{x.lineno}: {x.func.id}()")
             # history containers mutated through methods
             if isinstance(x, ast.Call) and isinstance(x.func, ast.Attribute) and x.func.attr in ("append", "extend", "pop", "clear", "update", "insert") \
                     and _self_root(x.func.value):
@@ -185,6 +209,16 @@ def mesh_immutable(ctx, rule: str, consequence: str):
     if len(m_attrs) < 6 or len(e_attrs) < 5:
         raise AnalysisError(f"mesh attribute tables too small: {sorted(m_attrs)} / {sorted(e_attrs)}")
     ctx.note("mesh_attributes", {"Mesh": sorted(m_attrs), "EdgeMesh": sorted(e_attrs)})
+    # properties that hand out a view of a geometry array (Mesh.x -> sites[:, 0]) are roots as well
+    view_props = {}
+    for k, c in (("Mesh", mesh_cls), ("EdgeMesh", edge_cls)):
+        for mname, mf in c.methods.items():
+            if any(norm(d) == "property" for d in mf.node.decorator_list):
+                r = analyse(mf.node, roots_params=False, root_expr=_self_root)
+                for _, lab, _txt in r.returns:
+                    if lab[5:] in (m_attrs if k == "Mesh" else e_attrs):
+                        view_props[(k, mname)] = lab[5:]
+    ctx.note("mesh_view_properties", {f"{k}.{p_}": a for (k, p_), a in view_props.items()})
     geom = m_attrs | e_attrs
     ctors = {f"{mesh_cls.fq}.__init__", f"{edge_cls.fq}.__init__"}
     n = 0
@@ -220,6 +254,10 @@ def mesh_immutable(ctx, rule: str, consequence: str):
                 k = meshlike(e.value)
                 if k and e.attr in (m_attrs if k == "Mesh" else e_attrs):
                     return f"{k}.{e.attr}"
+            if isinstance(e, ast.Attribute) and any(e.attr == p_ for (_, p_) in view_props):
+                k = meshlike(e.value)
+                if k and (k, e.attr) in view_props:
+                    return f"{k}.{view_props[(k, e.attr)]}"
             return None
         if f.fq in ctors:
             continue
